@@ -96,7 +96,8 @@ func init() {
 		"time.After":                   icTimeAfter,
 		"time.Date":                    icTimeDate,
 		"(time.Time).In":               icTimeIn,
-		"(time.Time).UTC":              icTimeIn,
+		"(time.Time).UTC":              icTimeUTC,
+		"(time.Time).Zone":             icTimeZone,
 		"(time.Time).Add":              icTimeAdd,
 		"(time.Time).Sub":              icTimeSub,
 		"(time.Time).AddDate":          icTimeAddDate,
@@ -964,6 +965,9 @@ func icLoadLocation(fr *frame, args []value) value {
 }
 
 func icTimeLocation(fr *frame, args []value) value {
+	if t, ok := args[0].(timeVal); ok && t.loc != "" {
+		return &opaque{kind: "location", data: t.loc}
+	}
 	return &opaque{kind: "location", data: "UTC"}
 }
 
@@ -973,7 +977,7 @@ func icTimeNow(fr *frame, args []value) value {
 	if m.fixedNow != 0 {
 		// verifFixedClock: concrete readings one millisecond apart
 		m.nowCount++
-		return timeVal{BV(m.fixedNow+uint64(m.nowCount)*1000000, 64)}
+		return timeVal{ns: BV(m.fixedNow+uint64(m.nowCount)*1000000, 64)}
 	}
 	m.nowCount++
 	name := fmt.Sprintf("now#%d", m.nowCount)
@@ -1000,7 +1004,7 @@ func icTimeNow(fr *frame, args []value) value {
 	}
 	m.slept = nil
 	m.lastNow = t
-	return timeVal{t}
+	return timeVal{ns: t}
 }
 
 func icTimeAfter(fr *frame, args []value) value {
@@ -1029,11 +1033,115 @@ func icTimeSleep(fr *frame, args []value) value {
 	return nil
 }
 
-func icTimeIn(fr *frame, args []value) value { return args[0] }
+// Locations.  An instant keeps the name of its zone; the zone matters for the
+// calendar (Weekday, Year … Nanosecond), for Zone() and for formatting, not
+// for comparisons and differences.  The offset of a named zone at a symbolic
+// instant is an ite chain over the zone's transitions inside the declared
+// time window (read from the system's tz database by the engine).
+func locName(v value) string {
+	if o, ok := v.(*opaque); ok && o != nil && o.kind == "location" {
+		if n, _ := o.data.(string); n != "UTC" && n != "GMT" && n != "" {
+			return n
+		}
+	}
+	return ""
+}
+
+func icTimeIn(fr *frame, args []value) value {
+	t := args[0].(timeVal)
+	return timeVal{ns: t.ns, loc: locName(args[1])}
+}
+
+func icTimeUTC(fr *frame, args []value) value {
+	return timeVal{ns: args[0].(timeVal).ns}
+}
+
+// zoneOffset returns the offset east of UTC, in seconds (64-bit term), of
+// zone loc at instant ns.
+func (m *Machine) zoneOffset(ns *Term, loc string) *Term {
+	if loc == "" {
+		return BV(0, 64)
+	}
+	l, err := time.LoadLocation(loc)
+	if err != nil {
+		panic(pathAbort{"unknown time zone " + loc})
+	}
+	offAt := func(n uint64) int64 {
+		_, o := nsToTime(n).In(l).Zone()
+		return int64(o)
+	}
+	if ns.IsConst() {
+		return BV(uint64(offAt(ns.c)), 64)
+	}
+	if !m.inTimeWindow(ns) {
+		panic(pathAbort{"zone offset of a symbolic instant outside a declared time window"})
+	}
+	// transitions inside the window: scan by the hour, then bisect to the second
+	type seg struct {
+		from uint64 // first instant (ns) with this offset
+		off  int64
+	}
+	const hour = 3600 * 1000000000
+	segs := []seg{{m.timeWinLo, offAt(m.timeWinLo)}}
+	for a := m.timeWinLo; a < m.timeWinHi; a += hour {
+		b := a + hour
+		if b > m.timeWinHi {
+			b = m.timeWinHi
+		}
+		if offAt(b) == segs[len(segs)-1].off {
+			continue
+		}
+		lo, hi := a, b // offAt(lo) old, offAt(hi) new
+		for hi-lo > 1000000000 {
+			mid := lo + (hi-lo)/2
+			mid -= mid % 1000000000
+			if mid <= lo {
+				break
+			}
+			if offAt(mid) == segs[len(segs)-1].off {
+				lo = mid
+			} else {
+				hi = mid
+			}
+		}
+		segs = append(segs, seg{hi, offAt(hi)})
+	}
+	st := m.st()
+	r := BV(uint64(segs[len(segs)-1].off), 64)
+	for i := len(segs) - 2; i >= 0; i-- {
+		r = st.Ite(st.ULt(ns, BV(segs[i+1].from, 64)), BV(uint64(segs[i].off), 64), r)
+	}
+	return r
+}
+
+// localNs: the instant whose UTC calendar reading is t's reading in its zone.
+func (m *Machine) localNs(t timeVal) *Term {
+	if t.loc == "" {
+		return t.ns
+	}
+	st := m.st()
+	return st.Add(t.ns, st.Mul(m.zoneOffset(t.ns, t.loc), BV(1000000000, 64)))
+}
+
+func icTimeZone(fr *frame, args []value) value {
+	t := args[0].(timeVal)
+	if t.loc == "" {
+		return tuple{"UTC", BV(0, 64)}
+	}
+	off := fr.m.zoneOffset(t.ns, t.loc)
+	name := value(t.loc)
+	if t.ns.IsConst() {
+		if l, err := time.LoadLocation(t.loc); err == nil {
+			n, _ := nsToTime(t.ns.c).In(l).Zone()
+			name = n
+		}
+	}
+	return tuple{name, off}
+}
 
 func icTimeAdd(fr *frame, args []value) value {
 	t := args[0].(timeVal)
-	return timeVal{fr.m.st().Add(t.ns, args[1].(*Term))}
+	return timeVal{ns: fr.m.st().Add(t.ns, args[1].(*Term)), loc: t.loc}
 }
 
 func icTimeSub(fr *frame, args []value) value {
@@ -1043,16 +1151,23 @@ func icTimeSub(fr *frame, args []value) value {
 func icTimeAddDate(fr *frame, args []value) value {
 	t := args[0].(timeVal)
 	y, mo, d := args[1].(*Term), args[2].(*Term), args[3].(*Term)
+	if t.loc != "" {
+		if l, err := time.LoadLocation(t.loc); err == nil && t.ns.IsConst() && y.IsConst() && mo.IsConst() && d.IsConst() {
+			r := nsToTime(t.ns.c).In(l).AddDate(int(sext64(y.c, 64)), int(sext64(mo.c, 64)), int(sext64(d.c, 64)))
+			return timeVal{ns: BV(uint64(r.UnixNano()), 64), loc: t.loc}
+		}
+		panic(pathAbort{"AddDate on a symbolic time in a zone other than UTC"})
+	}
 	if !y.IsConst() || !mo.IsConst() || y.c != 0 || mo.c != 0 {
 		if t.ns.IsConst() && y.IsConst() && mo.IsConst() && d.IsConst() {
 			r := nsToTime(t.ns.c).AddDate(int(sext64(y.c, 64)), int(sext64(mo.c, 64)), int(sext64(d.c, 64)))
-			return timeVal{BV(uint64(r.UnixNano()), 64)}
+			return timeVal{ns: BV(uint64(r.UnixNano()), 64)}
 		}
 		panic(pathAbort{"AddDate with years or months on a symbolic time"})
 	}
 	st := fr.m.st()
 	// UTC has no DST: adding n days is adding n*24h
-	return timeVal{st.Add(t.ns, st.Mul(d, BV(nsPerDay, 64)))}
+	return timeVal{ns: st.Add(t.ns, st.Mul(d, BV(nsPerDay, 64)))}
 }
 
 // Time window (verifTimeWindow): inside a declared window of instants the
@@ -1105,6 +1220,7 @@ func (m *Machine) dayChain(t *Term, f func(dayStart uint64) *Term) *Term {
 
 func icTimeWeekday(fr *frame, args []value) value {
 	t := args[0].(timeVal)
+	t = timeVal{ns: fr.m.localNs(t)}
 	st := fr.m.st()
 	if fr.m.inTimeWindow(t.ns) {
 		return fr.m.dayChain(t.ns, func(d uint64) *Term { return BV((d/nsPerDay+4)%7, 64) })
@@ -1122,6 +1238,7 @@ func icTimeComponent(what string) interceptFn {
 	return func(fr *frame, args []value) value {
 		t := args[0].(timeVal)
 		m := fr.m
+		t = timeVal{ns: m.localNs(t)}
 		if t.ns.IsConst() {
 			tt := nsToTime(t.ns.c)
 			var v int
@@ -1163,10 +1280,19 @@ func icTimeDate(fr *frame, args []value) value {
 			allConst = false
 		}
 	}
+	if loc := locName(args[7]); loc != "" {
+		l, err := time.LoadLocation(loc)
+		if err != nil || !allConst {
+			panic(pathAbort{"time.Date in a zone other than UTC with symbolic components"})
+		}
+		g := func(i int) int { return int(sext64(args[i].(*Term).c, 64)) }
+		r := time.Date(g(0), time.Month(g(1)), g(2), g(3), g(4), g(5), g(6), l)
+		return timeVal{ns: BV(uint64(r.UnixNano()), 64), loc: loc}
+	}
 	if allConst {
 		g := func(i int) int { return int(sext64(args[i].(*Term).c, 64)) }
 		r := time.Date(g(0), time.Month(g(1)), g(2), g(3), g(4), g(5), g(6), time.UTC)
-		return timeVal{BV(uint64(r.UnixNano()), 64)}
+		return timeVal{ns: BV(uint64(r.UnixNano()), 64)}
 	}
 	// "truncate to UTC midnight": Date(t.Year(), t.Month(), t.Day(), 0,0,0,0, UTC)
 	y, ok1 := m.timeComps[args[0].(*Term)]
@@ -1180,9 +1306,9 @@ func icTimeDate(fr *frame, args []value) value {
 	}
 	if ok1 && ok2 && ok3 && zeros && y.what == "year" && mo.what == "month" && d.what == "day" && y.of == mo.of && y.of == d.of {
 		if m.inTimeWindow(y.of) {
-			return timeVal{m.dayChain(y.of, func(d uint64) *Term { return BV(d, 64) })}
+			return timeVal{ns: m.dayChain(y.of, func(d uint64) *Term { return BV(d, 64) })}
 		}
-		return timeVal{st.Sub(y.of, st.bin(OpURem, y.of, BV(nsPerDay, 64)))}
+		return timeVal{ns: st.Sub(y.of, st.bin(OpURem, y.of, BV(nsPerDay, 64)))}
 	}
 	// General case inside a declared time window: the symbolic arguments are
 	// expressions over calendar components of instants of the window (and
@@ -1236,7 +1362,7 @@ func icTimeDate(fr *frame, args []value) value {
 				conc[i] = int(sext64(t.c, 64))
 			}
 			r := time.Date(conc[0], time.Month(conc[1]), conc[2], conc[3], conc[4], conc[5], conc[6], time.UTC)
-			return timeVal{BV(uint64(r.UnixNano()), 64)}
+			return timeVal{ns: BV(uint64(r.UnixNano()), 64)}
 		}
 	}
 	panic(pathAbort{"time.Date with symbolic components other than midnight truncation"})
@@ -1248,18 +1374,30 @@ func icTimeFormat(fr *frame, args []value) value {
 	if !ok {
 		panic(pathAbort{"symbolic time layout"})
 	}
-	if t.ns.IsConst() {
-		return nsToTime(t.ns.c).Format(layout)
+	zone := ""
+	if t.loc != "" {
+		zone = "@" + t.loc
 	}
-	return &SymStr{parts: []strPart{{kind: "time:" + layout, args: []*Term{t.ns}, n: -1}}}
+	if t.ns.IsConst() {
+		tt := nsToTime(t.ns.c)
+		if l, err := time.LoadLocation(t.loc); t.loc != "" && err == nil {
+			tt = tt.In(l)
+		}
+		return tt.Format(layout)
+	}
+	return &SymStr{parts: []strPart{{kind: "time:" + layout + zone, args: []*Term{t.ns}, n: -1}}}
 }
 
 func icTimeString(fr *frame, args []value) value {
 	t := args[0].(timeVal)
 	if t.ns.IsConst() {
-		return nsToTime(t.ns.c).String()
+		tt := nsToTime(t.ns.c)
+		if l, err := time.LoadLocation(t.loc); t.loc != "" && err == nil {
+			tt = tt.In(l)
+		}
+		return tt.String()
 	}
-	return &SymStr{parts: []strPart{{kind: "time:String", args: []*Term{t.ns}, n: -1}}}
+	return &SymStr{parts: []strPart{{kind: "time:String@" + t.loc, args: []*Term{t.ns}, n: -1}}}
 }
 
 func icTimeCmp(op string) interceptFn {
